@@ -1291,9 +1291,12 @@ func popOnExhaustion(w *World, m *runnerModel, pop *ast.CallExpr) (bool, string)
 			// followed by return of the recursive call — or by the jump back to the entry of Next, which is the same
 			// continuation without the stack frame
 			last := is.Body.List[len(is.Body.List)-1]
-			if br, ok := last.(*ast.BranchStmt); ok && br.Tok == token.GOTO && br.Label != nil && len(m.next.Body.List) > 0 {
-				if ls, ok := m.next.Body.List[0].(*ast.LabeledStmt); ok && ls.Label.Name == br.Label.Name {
-					return true, "popped only when the top queue is exhausted, then the search continues from the entry of Next"
+			if br, ok := last.(*ast.BranchStmt); ok && br.Tok == token.GOTO && br.Label != nil {
+				for _, st := range m.next.Body.List {
+					// a top-level label above the jump: the restart point of Next
+					if ls, ok := st.(*ast.LabeledStmt); ok && ls.Label.Name == br.Label.Name && ls.Pos() < br.Pos() {
+						return true, "popped only when the top queue is exhausted, then the search continues from the restart point of Next"
+					}
 				}
 			}
 			if ret, ok := last.(*ast.ReturnStmt); ok && len(ret.Results) == 1 {
